@@ -123,6 +123,16 @@ func polyFamilies() []*Grammar {
 		{Name: "P->aPb|eps", Rules: []*G{A(S(a, N(0), b), E())}},
 		{Name: "sepby(a,x)", Rules: []*G{SB(a, x)}},
 		{Name: "P->aP|a", Rules: []*G{A(S(a, N(0)), a)}},
+		// five stacked left-recursive precedence levels with parentheses; the
+		// inputs range over parentheses and atoms only
+		{Name: "L0->L0xL1|L1;L1->L1bL2|L2;L2->L2cL3|L3;L3->L3dL4|L4;L4->a|(L0)",
+			Rules: []*G{
+				A(S(N(0), x, N(1)), N(1)),
+				A(S(N(1), b, N(2)), N(2)),
+				A(S(N(2), T('c'), N(3)), N(3)),
+				A(S(N(3), T('d'), N(4)), N(4)),
+				A(a, S(T('('), N(0), T(')'))),
+			}, InAlpha: []byte{'(', ')', 'a'}},
 	})
 }
 
@@ -147,6 +157,9 @@ func C17_Poly() {
 	half := 1 + rt.Choose("half", rt.Param("H", 3))
 	n := 2 * half
 	alpha := g.Alphabet()
+	if g.InAlpha != nil {
+		alpha = g.InAlpha
+	}
 	in := make([]byte, n)
 	for i := range in {
 		in[i] = rt.Byte("in")
@@ -168,7 +181,8 @@ func C17_Poly() {
 	if res != "error" {
 		rt.Cover("accepted word")
 	}
-	bound := rt.Param("C", 8) * (n + 1) * (n + 1) * (n + 1) * (n + 1)
+	// degree-4 bound with the family constant = number of nonterminals
+	bound := rt.Param("C", 1) * len(g.Rules) * (n + 1) * (n + 1) * (n + 1) * (n + 1)
 	if full > bound {
 		rt.Fail("polynomial-bound", g.Name+" on "+showInput(in)+": "+itoa(full)+" calls for "+itoa(n)+" bytes")
 		return
